@@ -1473,6 +1473,7 @@ class FileHashStore(HashStore):
         :param str pid: Persistent or authority-based identifier.
         :param str cid: Content identifier
         """
+        tagging_started = False
         try:
             self._synchronize_referenced_locked_pids(pid)
             self._synchronize_object_locked_cids(cid)
@@ -1526,6 +1527,7 @@ class FileHashStore(HashStore):
                     )
                     self.fhs_logger.debug(debug_msg)
                     # Move the pid refs file
+                    tagging_started = True
                     pid_tmp_file_path = self._write_refs_file(tmp_root_path, cid, "pid")
                     shutil.move(pid_tmp_file_path, pid_refs_path)
                     # Update cid ref files as it already exists
@@ -1543,6 +1545,7 @@ class FileHashStore(HashStore):
                     return
 
                 # Move both files after checking the existing status of refs files
+                tagging_started = True
                 pid_tmp_file_path = self._write_refs_file(tmp_root_path, cid, "pid")
                 cid_tmp_file_path = self._write_refs_file(tmp_root_path, pid, "cid")
                 shutil.move(pid_tmp_file_path, pid_refs_path)
@@ -1565,7 +1568,8 @@ class FileHashStore(HashStore):
                 # much as possible. No exceptions from the reverting process will be thrown.
                 err_msg = f"Unexpected exception: {ue}, reverting tagging process (untag obj)."
                 self.fhs_logger.error(err_msg)
-                self._untag_object(pid, cid)
+                if tagging_started:
+                    self._untag_object(pid, cid)
                 raise ue
 
         finally:
